@@ -305,10 +305,22 @@ class SimulationMaximumStep(SimulationWithJumpTimes):
         )
         self.build_finer_grid = MethodType(build_finer_grid, self)
 
+    def build_finer_grid_up_to_maturity(self, jump_times, jump_values):
+        """The step from the last jump (or from 0 when there is no jump) to the maturity is refined like any other one:
+        the maturity is appended as a point repeating the last value, the grid is refined, and the point is dropped
+        again as `simulate_one_path` appends it.
+        """
+        last_value = (
+            jump_values[..., -1:]
+            if jump_times.size
+            else np.zeros(shape=jump_values.shape[:-1] + (1,))
+        )
+        aug_jump_times, aug_jump_values = self.build_finer_grid(
+            np.append(jump_times, self._maturity),
+            np.concatenate((jump_values, last_value), axis=-1),
+        )
+        return aug_jump_times[:-1], aug_jump_values[..., :-1]
+
     def simulate_jumps(self):
         jump_times, jump_values = super().simulate_jumps()
-
-        if jump_times.size == 0:
-            return jump_times, jump_values
-
-        return self.build_finer_grid(jump_times, jump_values)
+        return self.build_finer_grid_up_to_maturity(jump_times, jump_values)
